@@ -85,6 +85,19 @@ func fmtNative(format string, hasFormat bool, args []value) string {
 			fmt.Fprintf(&sb, "t%d", v.t.ID)
 		case bool, int, int8, int16, int32, int64, uint, uint8, uint16, uint32, uint64, uintptr, string:
 			fmt.Fprintf(&sb, "%v", v)
+		case *value:
+			// fmt prints a pointer to anything but a struct / array / slice / map as its address: text that differs from
+			// allocation to allocation (and from process to process)
+			if pt, isPtr := it.t.Underlying().(*types.Pointer); isPtr && v != nil {
+				switch pt.Elem().Underlying().(type) {
+				case *types.Struct, *types.Array, *types.Slice, *types.Map:
+					sb.WriteString(it.t.String())
+				default:
+					fmt.Fprintf(&sb, "address:%p", v)
+				}
+			} else if it.t != nil {
+				sb.WriteString(it.t.String())
+			}
 		default:
 			if it.t != nil {
 				sb.WriteString(it.t.String())
